@@ -50,3 +50,6 @@ func verifSortQiTxs(txs []*types.TxWithMinerFee) {
 func (sl *Slice) VerifSetLockupContract(addr *common.Address) {
 	sl.miner.worker.lockupContractAddress = addr
 }
+
+// VerifPurgeOrderCache empties the order cache (what a restart or an eviction does), so that the next CalcOrder computes afresh.
+func (hc *HeaderChain) VerifPurgeOrderCache() { hc.calcOrderCache.Purge() }
